@@ -274,6 +274,39 @@ theorem scan_exact (H : Bytes → Bytes) (hH : ∀ b, (H b).length = 32) (S : Na
     L.ok
   simpa [scan] using h
 
+/-! ### growing the region (`grow_wal_region`: old bytes followed by zeros) -/
+
+theorem zeros_append (a b : Nat) : zeros a ++ zeros b = zeros (a + b) := by
+  simp [zeros, List.replicate_append_replicate]
+
+/-- a layout survives appending `d` zero bytes to the region: the records and the write head stay,
+    and the sentinel is still in place — when less than a header fitted behind the write head, the
+    zero tail written by `write_zero_header` joins the new zeros into a full sentinel. -/
+theorem Layout.grow (H : Bytes → Bytes) (S : Nat) (region : Bytes) (recs : List Rec)
+    (L : Layout H S region recs) (d : Nat) : Layout H (S + d) (region ++ zeros d) recs := by
+  have hlen := L.len
+  have hfit := L.fit
+  have hs := L.sentinel
+  refine ⟨by simp [hlen], by omega, ?_, ?_, L.ok⟩
+  · rw [List.take_append_of_le_length (by omega)]; exact L.bytes
+  · simp only [EHS_eq] at hs ⊢
+    unfold slice at hs ⊢
+    rw [List.drop_append_of_le_length (by omega)]
+    by_cases hc : sizeSum recs + 48 ≤ S
+    · have h1 : min 48 (S - sizeSum recs) = 48 := by omega
+      have h2 : min 48 (S + d - sizeSum recs) = 48 := by omega
+      rw [h1] at hs
+      rw [h2, List.take_append_of_le_length (by simp; omega)]
+      exact hs
+    · have h1 : min 48 (S - sizeSum recs) = S - sizeSum recs := by omega
+      rw [h1] at hs
+      have hd : (region.drop (sizeSum recs)).length = S - sizeSum recs := by simp; omega
+      rw [List.take_of_length_le (by omega)] at hs
+      rw [hs, zeros_append]
+      simp only [zeros, List.take_replicate]
+      congr 1
+      omega
+
 /-! ### the sentinel writer -/
 
 theorem writeZeroHeader_eq (w : Wal) (position : Nat) (hS : w.S ≠ 0) (hp : position ≤ w.S) :
